@@ -16,8 +16,9 @@
 
      exchange   retries left (2 - retried), then the one-way transitions udp -> tcp, OPT -> no OPT
      lookup     the server list
-     resolve    (rs.depth, nomin flag, servers.Checked flag, minimisation steps left) — lexicographic,
-                accepted by Equations' well-founded recursion, no fuel argument
+     resolve    (rs.depth, nomin flag, servers.Checked flag, minimisation steps left) — lexicographic;
+                structural recursion on the accessibility proof of that order, every recursive call
+                carries the proof that the code's own guard made the tuple smaller; no fuel argument
      chase      cnameDepth (10) inside one level, cnameChaseDepth (< 10) across nested levels
      checkDname contextKeyDnameDepth (< 10)
      query      maxQueryerRecursion - depth
@@ -26,8 +27,7 @@
    DNSSEC validation work (DNSSEC off / CD path; see NOTES.md), the attempt guard (assumed to admit:
    more work, never less), wall-clock deadlines (never fire), parallel racing in lookup (stragglers
    are extra exchange chains the adversary may add). *)
-From Coq Require Import Relations.
-From Equations Require Import Equations.
+From Coq Require Import Relations Wf_nat.
 From Sdns Require Import Common.Base Gen.C12 C12.Model.
 Open Scope N_scope.
 
@@ -65,16 +65,22 @@ Definition chase_model (depth0 chain_len loop_at loop_to : N) : N * N :=
 
 (* ------------------------------------------------------------------ program trees *)
 
+(* values carried in the context *)
+Record cx := mk_cx { cx_be : bool; cx_chase : nat; cx_dname : nat; cx_nsl : bool }.
+(* what the context of a sub-pipeline run carries: queryerDepthKey and the rest *)
+Record slabel := mk_sl { sl_nest : nat; sl_cx : cx }.
+
 Inductive prog (A : Type) : Type :=
 | Ret (a : A)
 | Choose (n : nat) (k : nat -> prog A)
 | DebitOut (be : bool) (kok : prog A) (kerr : res -> prog A)
 | DebitInt (be : bool) (kok : prog A) (kerr : res -> prog A)
 | Exchange (k : prog A)
-| SubRun (k : prog A)
+| SubRun (l : slabel) (k : prog A)   (* a sub-pipeline run starts; [l]: what its context carries *)
+| SubEnd (k : prog A)                (* ... and returns to Queryer.Query *)
 | EnfErr (k : res -> prog A).
 Arguments Ret {A}. Arguments Choose {A}. Arguments DebitOut {A}. Arguments DebitInt {A}.
-Arguments Exchange {A}. Arguments SubRun {A}. Arguments EnfErr {A}.
+Arguments Exchange {A}. Arguments SubRun {A}. Arguments SubEnd {A}. Arguments EnfErr {A}.
 
 Fixpoint bind {A B} (p : prog A) (f : A -> prog B) : prog B :=
   match p with
@@ -83,7 +89,8 @@ Fixpoint bind {A B} (p : prog A) (f : A -> prog B) : prog B :=
   | DebitOut be kok kerr => DebitOut be (bind kok f) (fun e => bind (kerr e) f)
   | DebitInt be kok kerr => DebitInt be (bind kok f) (fun e => bind (kerr e) f)
   | Exchange k => Exchange (bind k f)
-  | SubRun k => SubRun (bind k f)
+  | SubRun l k => SubRun l (bind k f)
+  | SubEnd k => SubEnd (bind k f)
   | EnfErr k => EnfErr (fun e => bind (k e) f)
   end.
 
@@ -99,8 +106,78 @@ Fixpoint run {A} (adv : nat -> nat) (p : prog A) (w : wstate) : wstate * A :=
       let '(w1, r) := ctx_debit w kind_internal be in
       match r with ROk => run adv kok w1 | e => run adv (kerr e) w1 end
   | Exchange k => run adv k (w_exchanged w)
-  | SubRun k => run adv k (w_subbed w)
+  | SubRun _ k => run adv k (w_subbed w)
+  | SubEnd k => run adv k w
   | EnfErr k => run adv (k (enforcement_error (w_led w))) w
+  end.
+
+(* what an observer placed at the upstream servers and at the head of the sub-pipeline sees, step by
+   step: every exchange and every sub-run start with the ledger's counters at that moment, every
+   sub-run end *)
+Inductive event :=
+| EvX (out int : N)
+| EvS (l : slabel) (out int : N)
+| EvE.
+
+Fixpoint trace {A} (adv : nat -> nat) (p : prog A) (w : wstate) : list event :=
+  match p with
+  | Ret _ => []
+  | Choose n k => trace adv (k (Nat.modulo (adv (w_tick w)) (S n))) (w_ticked w)
+  | DebitOut be kok kerr =>
+      let '(w1, r) := ctx_debit w kind_outbound be in
+      match r with ROk => trace adv kok w1 | e => trace adv (kerr e) w1 end
+  | DebitInt be kok kerr =>
+      let '(w1, r) := ctx_debit w kind_internal be in
+      match r with ROk => trace adv kok w1 | e => trace adv (kerr e) w1 end
+  | Exchange k => EvX (l_out (w_led w)) (l_int (w_led w)) :: trace adv k (w_exchanged w)
+  | SubRun l k => EvS l (l_out (w_led w)) (l_int (w_led w)) :: trace adv k (w_subbed w)
+  | SubEnd k => EvE :: trace adv k w
+  | EnfErr k => trace adv (k (enforcement_error (w_led w))) w
+  end.
+
+(* ---- two checkers over event sequences; Proofs_trace.v proves that every trace of the skeleton passes
+   them, Run.v applies them to the event sequence recorded from the real resolver.
+
+   steps_ok: the budget invariant, step by step.  When the k-th exchange reaches an upstream server the
+   outbound counter is already >= k; when the k-th sub-pipeline run starts the internal counter is
+   already >= k; counters never go down; with [enf] they never pass the caps. *)
+Fixpoint steps_ok (enf : bool) (maxo maxi : N) (nx ns po pi : N) (tr : list event) : bool :=
+  match tr with
+  | [] => true
+  | EvX o i :: r =>
+      (nx + 1 <=? o) && (po <=? o) && (pi <=? i) && (negb enf || ((o <=? maxo) && (i <=? maxi))) &&
+      steps_ok enf maxo maxi (nx + 1) ns o i r
+  | EvS _ o i :: r =>
+      (ns + 1 <=? i) && (po <=? o) && (pi <=? i) && (negb enf || ((o <=? maxo) && (i <=? maxi))) &&
+      steps_ok enf maxo maxi nx (ns + 1) o i r
+  | EvE :: r => steps_ok enf maxo maxi nx ns po pi r
+  end.
+
+(* how the context of a sub-pipeline run derives from the context of the run that asked for it: exactly
+   one of the three reasons the resolver and the cache middleware have for an internal query *)
+Definition child_cx_ok (v6 : bool) (p c : cx) : bool :=
+  ( (* CNAME chase (Cache.additionalAnswer): chase depth + 1, only below maxCnameChaseDepth *)
+    (cx_chase c =? S (cx_chase p))%nat && (N.of_nat (cx_chase p) <? max_cname_chase_depth) &&
+    (cx_dname c =? cx_dname p)%nat && Bool.eqb (cx_nsl c) (cx_nsl p) && Bool.eqb (cx_be c) (cx_be p))
+  || (* DNAME target follow-up (Resolver.checkDname): DNAME depth + 1, only below maxDnameDepth *)
+   ((cx_dname c =? S (cx_dname p))%nat && (N.of_nat (cx_dname p) <? max_dname_depth) &&
+    (cx_chase c =? cx_chase p)%nat && Bool.eqb (cx_nsl c) (cx_nsl p) && Bool.eqb (cx_be c) (cx_be p))
+  || (* nameserver address lookup (lookupNSAddrV4/V6): marked contextKeyNSL; the IPv6 walk is best-effort *)
+   (cx_nsl c && (cx_chase c =? cx_chase p)%nat && (cx_dname c =? cx_dname p)%nat &&
+    (Bool.eqb (cx_be c) (cx_be p) || (v6 && cx_be c))).
+
+Definition child_ok (v6 : bool) (par ch : slabel) : bool :=
+  (sl_nest ch =? S (sl_nest par))%nat && (sl_nest ch <=? N.to_nat max_queryer_recursion)%nat &&
+  child_cx_ok v6 (sl_cx par) (sl_cx ch).
+
+(* tree_run: sub-runs nest properly and every one is a legitimate child of the run that is open when it
+   starts; returns the open run and the stack below it, None on a violation *)
+Fixpoint tree_run (v6 : bool) (cur : slabel) (st : list slabel) (tr : list event) : option (slabel * list slabel) :=
+  match tr with
+  | [] => Some (cur, st)
+  | EvX _ _ :: r => tree_run v6 cur st r
+  | EvS l _ _ :: r => if child_ok v6 cur l then tree_run v6 l (cur :: st) r else None
+  | EvE :: r => match st with p :: st' => tree_run v6 p st' r | [] => None end
   end.
 
 (* "every exchange is preceded by a debit; every sub-run too": a bare Exchange / SubRun is not
@@ -110,8 +187,9 @@ Inductive guarded {A} : prog A -> Prop :=
 | g_choose : forall n k, (forall i, (i <= n)%nat -> guarded (k i)) -> guarded (Choose n k)
 | g_out_x : forall be k kerr, guarded k -> (forall e, guarded (kerr e)) -> guarded (DebitOut be (Exchange k) kerr)
 | g_out : forall be k kerr, guarded k -> (forall e, guarded (kerr e)) -> guarded (DebitOut be k kerr)
-| g_int_s : forall be k kerr, guarded k -> (forall e, guarded (kerr e)) -> guarded (DebitInt be (SubRun k) kerr)
+| g_int_s : forall be l k kerr, guarded k -> (forall e, guarded (kerr e)) -> guarded (DebitInt be (SubRun l k) kerr)
 | g_int : forall be k kerr, guarded k -> (forall e, guarded (kerr e)) -> guarded (DebitInt be k kerr)
+| g_end : forall k, guarded k -> guarded (SubEnd k)
 | g_enf : forall k, (forall e, guarded (k e)) -> guarded (EnfErr k).
 
 (* an upper bound, over all adversaries and all ledger states, on the wire exchanges of a program *)
@@ -121,7 +199,8 @@ Inductive costs {A} : prog A -> nat -> Prop :=
 | c_out : forall be kok kerr n, costs kok n -> (forall e, costs (kerr e) n) -> costs (DebitOut be kok kerr) n
 | c_int : forall be kok kerr n, costs kok n -> (forall e, costs (kerr e) n) -> costs (DebitInt be kok kerr) n
 | c_exch : forall k n, costs k n -> costs (Exchange k) (S n)
-| c_sub : forall k n, costs k n -> costs (SubRun k) n
+| c_sub : forall l k n, costs k n -> costs (SubRun l k) n
+| c_end : forall k n, costs k n -> costs (SubEnd k) n
 | c_enf : forall k n, (forall e, costs (k e) n) -> costs (EnfErr k) n
 | c_weaken : forall p n n', costs p n -> (n <= n')%nat -> costs p n'.
 
@@ -139,8 +218,59 @@ Inductive reply :=
 | ReplyLocal                    (* other request-local failure (attempt limit, max recursion) *)
 | ReplyNone.                    (* nothing written *)
 
-(* values carried in the context *)
-Record cx := mk_cx { cx_be : bool; cx_chase : nat; cx_dname : nat; cx_nsl : bool }.
+(* ---- the order [resolve] descends along: lexicographic on (rs.depth, not rs.nomin, servers not yet
+   through checkHosts, minimisation steps left) *)
+Definition b2n (b : bool) : nat := if b then 1%nat else 0%nat.
+Definition rtup : Type := (nat * nat * nat * nat)%type.
+Definition rkey (depth : nat) (nomin unch : bool) (lvl : nat) : rtup := (depth, b2n (negb nomin), b2n unch, lvl).
+Definition rlt (x y : rtup) : Prop :=
+  let '(a1, a2, a3, a4) := x in let '(b1, b2, b3, b4) := y in
+  (a1 < b1 \/ (a1 = b1 /\ (a2 < b2 \/ (a2 = b2 /\ (a3 < b3 \/ (a3 = b3 /\ a4 < b4))))))%nat.
+
+Lemma rlt_wf : well_founded rlt.
+Proof.
+  intros [[[a b] c] d]. revert b c d.
+  induction a as [a IHa] using lt_wf_ind. intros b.
+  induction b as [b IHb] using lt_wf_ind. intros c.
+  induction c as [c IHc] using lt_wf_ind. intros d.
+  induction d as [d IHd] using lt_wf_ind.
+  constructor. intros [[[a' b'] c'] d'] H. cbn in H.
+  destruct H as [H|[-> [H|[-> [H|[-> H]]]]]]; auto.
+Qed.
+(* accessibility proofs that evaluate lazily (2^64 levels before the opaque proof is touched), so that
+   [resolve] computes under vm_compute *)
+Definition rwf : forall x, Acc rlt x := Acc_intro_generator 64 rlt_wf.
+(* proofs never look inside (they hold for every accessibility proof); vm_compute still evaluates it *)
+Global Opaque rwf.
+
+Section Obligations.
+  Variables (depth : nat) (nomin unch : bool) (lvl : nat).
+  Ltac brk := repeat match goal with
+    | E : (_ && _)%bool = true |- _ => apply Bool.andb_true_iff in E; destruct E
+    | E : negb _ = true |- _ => apply Bool.negb_true_iff in E; subst
+    | E : Nat.ltb _ _ = true |- _ => apply Nat.ltb_lt in E
+    | E : N.ltb _ _ = true |- _ => apply N.ltb_lt in E
+    end.
+  (* minimized: rs.level++ *)
+  Lemma ob_level : (negb nomin && (0 <? lvl)%nat)%bool = true -> rlt (rkey depth nomin unch (pred lvl)) (rkey depth nomin unch lvl).
+  Proof. intros E. brk. cbn. lia. Qed.
+  (* parent detection: restart from the root with nomin = true; guarded by !rs.nomin *)
+  Lemma ob_parent : forall qmin, (negb nomin && (0 <? qmin)%nat)%bool = true -> rlt (rkey depth true true 0%nat) (rkey depth nomin unch lvl).
+  Proof. intros q E. brk. cbn. lia. Qed.
+  (* rs.depth--; if rs.depth <= 0 return errMaxDepth *)
+  Lemma ob_descend : forall lvl', (1 <? depth)%nat = true -> rlt (rkey (depth - 1) nomin true lvl') (rkey depth nomin unch lvl).
+  Proof. intros l' E. brk. cbn. lia. Qed.
+  (* cached delegation with the same servers: rs.depth -= 10 *)
+  Lemma ob_penalty : forall lvl', (cached_loop_depth_penalty <? N.of_nat depth) = true ->
+    rlt (rkey (depth - N.to_nat cached_loop_depth_penalty) nomin unch lvl') (rkey depth nomin unch lvl).
+  Proof. intros l' E. brk. assert (0 < N.to_nat cached_loop_depth_penalty)%nat by (unfold cached_loop_depth_penalty; lia). cbn. lia. Qed.
+  (* handleLookupError: retry without minimisation; guarded by minimized, i.e. !rs.nomin *)
+  Lemma ob_nomin : (negb nomin && (0 <? lvl)%nat)%bool = true -> rlt (rkey depth true unch 0%nat) (rkey depth nomin unch lvl).
+  Proof. intros E. brk. cbn. lia. Qed.
+  (* ErrorCount reached 5 and checkHosts set servers.Checked *)
+  Lemma ob_checked : unch = true -> rlt (rkey depth nomin false lvl) (rkey depth nomin unch lvl).
+  Proof. intros ->. cbn. lia. Qed.
+End Obligations.
 
 Section Skeleton.
   (* configuration and physical bounds of the adversary's messages *)
@@ -239,19 +369,21 @@ Section Skeleton.
                else Ret RErr                                        (* errMaxDepth *)
         end).
 
-    Definition b2n (b : bool) : nat := if b then 1%nat else 0%nat.
-
     Definition inspectb (b : bool) : {b = true} + {b = false} :=
       match b as x return {x = true} + {x = false} with true => left eq_refl | false => right eq_refl end.
 
     (* --- Resolver.resolve.  depth = rs.depth; nomin = rs.nomin; unch = the current servers object
        has not been through checkHosts; lvl = minimisation steps left =
        min(qnameMinLevel, labels - 1) - rs.level;  n+1 = servers in rs.servers.
-       The lexicographic measure (depth, not nomin, unch, lvl) is the termination argument. *)
-    Equations? resolve (depth : nat) (nomin unch : bool) (lvl n : nat) : prog rres
-      by wf (depth, (b2n (negb nomin), (b2n unch, lvl)))
-            (lexprod nat _ lt (lexprod nat _ lt (lexprod nat nat lt lt))) :=
-    resolve depth nomin unch lvl n :=
+       The lexicographic order [rlt] on (depth, not nomin, unch, lvl) is the termination argument:
+       [resolve_F] is one pass through the body; every re-entry goes through [rec], which demands a
+       proof that the tuple became smaller — the ob_* lemmas above, each proved from the guard the Go
+       code tests at that place.  [resolve_acc] ties the knot by structural recursion on the
+       accessibility proof (the construction of Coq.Init.Wf.Fix_F, written out so that its unfolding
+       [resolve_acc_eq] holds by computation, without functional extensionality). *)
+    Definition resolve_F (depth : nat) (nomin unch : bool) (lvl n : nat)
+        (rec : forall (d' : nat) (nm' u' : bool) (l' : nat) (n' : nat),
+               rlt (rkey d' nm' u' l') (rkey depth nomin unch lvl) -> prog rres) : prog rres :=
       bind (lookup (cx_be c) (S n)) (fun l =>
         match l with
         | LWork e => Ret (RWork e)
@@ -260,12 +392,12 @@ Section Skeleton.
             match cls with
             | O =>                                                  (* no answer, no authority *)
               match inspectb (negb nomin && (0 <? lvl)%nat) with
-              | left E => resolve depth nomin unch (pred lvl) n     (* minimized: level++ *)
+              | left E => rec depth nomin unch (pred lvl) n (ob_level depth nomin unch lvl E)     (* minimized: level++ *)
               | right _ => Ret RResp
               end
             | 1%nat =>                                              (* answer section *)
               match inspectb (negb nomin && (0 <? lvl)%nat) with
-              | left E => resolve depth nomin unch (pred lvl) n
+              | left E => rec depth nomin unch (pred lvl) n (ob_level depth nomin unch lvl E)
               | right _ => answer_step
               end
             | _ =>                                                  (* authority section only *)
@@ -273,24 +405,24 @@ Section Skeleton.
                 match sub with
                 | O =>                                              (* minimized and SOA/CNAME there: level++ *)
                   match inspectb (negb nomin && (0 <? lvl)%nat) with
-                  | left E => resolve depth nomin unch (pred lvl) n
+                  | left E => rec depth nomin unch (pred lvl) n (ob_level depth nomin unch lvl E)
                   | right _ => Ret RResp
                   end
                 | 1%nat => Ret RResp                               (* authority(): negative answer *)
                 | 2%nat => Ret RErr                                (* non-progressing referral *)
                 | 3%nat =>                                         (* rs.level > nlevel: parent detection *)
                   match inspectb (negb nomin && (0 <? qmin)%nat) with
-                  | left E => Choose Smax (fun n' => resolve depth true true 0 n')
+                  | left E => Choose Smax (fun n' => rec depth true true 0%nat n' (ob_parent depth nomin unch lvl qmin E))
                   | right _ => Ret RErr
                   end
                 | 4%nat =>                                         (* cached delegation, other servers *)
                   match inspectb (1 <? depth)%nat with
-                  | left E => Choose Smax (fun n' => Choose qmin (fun lvl' => resolve (depth - 1) nomin true lvl' n'))
+                  | left E => Choose Smax (fun n' => Choose qmin (fun lvl' => rec (depth - 1)%nat nomin true lvl' n' (ob_descend depth nomin unch lvl lvl' E)))
                   | right _ => Ret RErr                            (* errMaxDepth *)
                   end
                 | 5%nat =>                                         (* cached delegation, same servers *)
                   match inspectb (cached_loop_depth_penalty <? N.of_nat depth) with
-                  | left E => Choose qmin (fun lvl' => resolve (depth - N.to_nat cached_loop_depth_penalty) nomin unch lvl' n)
+                  | left E => Choose qmin (fun lvl' => rec (depth - N.to_nat cached_loop_depth_penalty)%nat nomin unch lvl' n (ob_penalty depth nomin unch lvl lvl' E))
                   | right _ => Ret RErr
                   end
                 | _ =>                                             (* new delegation *)
@@ -303,13 +435,13 @@ Section Skeleton.
                           match has with
                           | O =>                                   (* no reachable server *)
                             match inspectb (negb nomin && (0 <? lvl)%nat) with
-                            | left E => resolve depth nomin unch (pred lvl) n
+                            | left E => rec depth nomin unch (pred lvl) n (ob_level depth nomin unch lvl E)
                             | right _ => Ret RErr
                             end
                           | _ =>
                             bind (if v6 then Choose Fmax (fun h6 => ns_lookups v6_cx false h6) else Ret None) (fun _ =>
                               match inspectb (1 <? depth)%nat with
-                              | left E => Choose Smax (fun n' => Choose qmin (fun lvl' => resolve (depth - 1) nomin true lvl' n'))
+                              | left E => Choose Smax (fun n' => Choose qmin (fun lvl' => rec (depth - 1)%nat nomin true lvl' n' (ob_descend depth nomin unch lvl lvl' E)))
                               | right _ => Ret RErr
                               end)
                           end)
@@ -318,17 +450,17 @@ Section Skeleton.
             end)
         | LErrAttempt =>                                           (* handleLookupError *)
           match inspectb (negb nomin && (0 <? lvl)%nat) with
-          | left E => resolve depth true unch 0 n
+          | left E => rec depth true unch 0%nat n (ob_nomin depth nomin unch lvl E)
           | right _ => Ret RErr
           end
         | LErrOther =>
           match inspectb (negb nomin && (0 <? lvl)%nat) with
-          | left E => resolve depth true unch 0 n
+          | left E => rec depth true unch 0%nat n (ob_nomin depth nomin unch lvl E)
           | right _ => Ret RErr
           end
         | LErrFatal =>
           match inspectb (negb nomin && (0 <? lvl)%nat) with
-          | left E => resolve depth true unch 0 n
+          | left E => rec depth true unch 0%nat n (ob_nomin depth nomin unch lvl E)
           | right _ =>
             if cx_nsl c then Ret RErr
             else match inspectb unch with
@@ -339,25 +471,20 @@ Section Skeleton.
                          Choose 1 (fun grew =>
                            match grew with
                            | O => Ret RErr
-                           | _ => Choose Smax (fun n' => resolve depth nomin false lvl n')
+                           | _ => Choose Smax (fun n' => rec depth nomin false lvl n' (ob_checked depth nomin unch lvl E))
                            end))))
                  | right _ => Ret RErr
                  end
           end
         end).
-    Proof.
-      all: subst; repeat match goal with
-        | E : (_ && _) = true |- _ => apply Bool.andb_true_iff in E; destruct E
-        | E : negb _ = true |- _ => apply Bool.negb_true_iff in E; subst
-        | E : Nat.ltb _ _ = true |- _ => apply Nat.ltb_lt in E
-        | E : N.ltb _ _ = true |- _ => apply N.ltb_lt in E
-        end; cbn [b2n negb];
-      try (assert (0 < N.to_nat cached_loop_depth_penalty)%nat by (unfold cached_loop_depth_penalty; lia));
-      first [ left; lia
-            | right; left; lia
-            | right; right; left; lia
-            | right; right; right; lia ].
-    Qed.
+
+    Fixpoint resolve_acc (depth : nat) (nomin unch : bool) (lvl n : nat)
+        (a : Acc rlt (rkey depth nomin unch lvl)) {struct a} : prog rres :=
+      resolve_F depth nomin unch lvl n
+        (fun d' nm' u' l' n' p => resolve_acc d' nm' u' l' n' (Acc_inv a p)).
+
+    Definition resolve (depth : nat) (nomin unch : bool) (lvl n : nat) : prog rres :=
+      resolve_acc depth nomin unch lvl n (rwf (rkey depth nomin unch lvl)).
 
     (* Resolver.Resolve as called by DNSHandler.handle: enforcement check before and after *)
     Definition handle : prog rres :=
@@ -442,8 +569,9 @@ Section Skeleton.
     | O => Ret ReplyLocal                                            (* ErrMaxRecursion *)
     | S q' =>
       DebitInt (cx_be c)
-        (SubRun (bind (pipeline (query q') c) (fun r =>
-           EnfErr (fun e => match e with ROk => Ret r | e' => Ret (ReplyWork e' true) end))))
+        (SubRun (mk_sl (N.to_nat max_queryer_recursion - q') c)
+           (bind (pipeline (query q') c) (fun r =>
+              SubEnd (EnfErr (fun e => match e with ROk => Ret r | e' => Ret (ReplyWork e' true) end)))))
         (fun e => Ret (ReplyWork e true))
     end.
 
